@@ -118,9 +118,8 @@ func (s *State) ExpandMacros(program ast.Node) ast.Node {
 			return s.MacroErrorf("macro expansion nested more than %d deep", maxMacroNesting)
 		}
 		s.macroDepth++
-		res := s.ExpandMacros(quote.Node)
-		s.macroDepth--
-		return res
+		defer func() { s.macroDepth-- }() // (also when the nested expansion panics: the count is per session)
+		return s.ExpandMacros(quote.Node)
 	})
 }
 
